@@ -40,6 +40,8 @@ class AxesEval:
             return "-1"
         if isinstance(e, ast.UnaryOp) and isinstance(e.op, ast.USub) and isinstance(e.operand, ast.Constant) and e.operand.value == 1:
             return "-1"
+        if isinstance(e, ast.Name) and e.id.startswith("__role_"):
+            return e.id[7:]
         r = self.size_role(e, self)
         if r is not None:
             return r
@@ -146,6 +148,7 @@ class AxesEval:
                 sizes = args
                 if len(sizes) == 1 and isinstance(sizes[0], (ast.Tuple, ast.List)):
                     sizes = sizes[0].elts
+                sizes = self._expand_starred(sizes)
                 seq: List[str] = [r for ax in base for r in ax if r != "1"]
                 roles = [self.role_of_size(s) for s in sizes]
                 if any(r is None for r in roles):
@@ -200,9 +203,55 @@ class AxesEval:
                 if keep is not None and dump(keep) == "True":
                     return base[:k] + [ONE] + base[k + 1:]
                 return base[:k] + base[k + 1:]
-            if name in ("float", "to", "clone", "contiguous", "double"):
+            if name in ("float", "to", "clone", "contiguous", "double") and recv is not None:
                 return self.ev(recv)
+            if name in ("cos", "sin", "tanh", "exp", "relu", "sigmoid", "abs", "sqrt", "square", "neg") and (args or recv is not None):
+                return self.ev(args[0] if is_mod else recv)
+            if name in ("cat", "concat") and args and isinstance(args[0], (ast.List, ast.Tuple)):
+                vals = [self.ev(x) for x in args[0].elts]
+                k = dimarg(1)
+                n = len(vals[0])
+                if k < 0:
+                    k += n
+                if any(len(v) != n for v in vals):
+                    raise Scrambled("concatenation of tensors of different rank")
+                out = []
+                for i in range(n):
+                    if i == k:
+                        roles = tuple(r for v in vals for r in v[i] if r != "1")
+                        out.append(("cat:" + "+".join(roles),) if len(vals) > 1 else vals[0][i])
+                    else:
+                        col = {v[i] for v in vals}
+                        if len(col) != 1:
+                            raise Scrambled(f"concatenated tensors disagree on axis {i}: {sorted(col)}")
+                        out.append(vals[0][i])
+                return out
         raise NotAxes(f"not an axis re-arrangement: {dump(e)[:70]}")
+
+    def _expand_starred(self, sizes):
+        """*X.shape[a:b] -> the sizes of those axes; *([1] * X.dim()) -> that many ones"""
+        out = []
+        for sz in sizes:
+            if not isinstance(sz, ast.Starred):
+                out.append(sz)
+                continue
+            v = sz.value
+            if isinstance(v, ast.Subscript) and isinstance(v.value, ast.Attribute) and v.value.attr == "shape" and isinstance(v.slice, ast.Slice):
+                base = self.ev(v.value.value)
+                lo = v.slice.lower.value if isinstance(v.slice.lower, ast.Constant) else (None if v.slice.lower is None else -v.slice.lower.operand.value)
+                hi = v.slice.upper.value if isinstance(v.slice.upper, ast.Constant) else (None if v.slice.upper is None else -v.slice.upper.operand.value)
+                for ax in base[lo:hi]:
+                    if len(ax) != 1:
+                        raise NotAxes("composite axis used as a size")
+                    out.append(ast.Name(id=f"__role_{ax[0]}", ctx=ast.Load()))
+                continue
+            if isinstance(v, ast.BinOp) and isinstance(v.op, ast.Mult) and isinstance(v.left, ast.List) and len(v.left.elts) == 1 and dump(v.left.elts[0]) == "1" \
+                    and isinstance(v.right, ast.Call) and isinstance(v.right.func, ast.Attribute) and v.right.func.attr in ("dim", "ndimension"):
+                rank = len(self.ev(v.right.func.value))
+                out.extend([ast.Constant(value=1)] * rank)
+                continue
+            raise NotAxes(f"starred size {dump(v)[:50]}")
+        return out
 
     @staticmethod
     def broadcast(a: List[Axis], b: List[Axis]) -> List[Axis]:
